@@ -210,6 +210,7 @@ class Evaluator(object):
         self.ext_summaries = {}             # external callable name -> function(ev, args, kwargs, node)
         self.raise_conds = []               # (function qualname, condition under which an `if ...: raise` fires incl. enclosing ifs, node)
         self._path = []                     # conditions of the enclosing if-branches
+        self._path_base = []                # per function frame: length of _path at entry
         self.fold_const_types = False       # type(<numeric constant>) folds to int / float
         self.rat_type_is_float = False      # type(<symbolic number>) folds to float (used where inputs are documented floats)
         self._assigned_cache = {}
@@ -297,6 +298,7 @@ class Evaluator(object):
 
     def _exec_function_body(self, func, env):
         self._stack.append(func)
+        self._path_base.append(len(self._path))
         try:
             out = self.exec_block(func.node.body, env, func)
             if len(self._stack) == 1:
@@ -307,6 +309,7 @@ class Evaluator(object):
             return self.abstract(self._fold_returns(rets))
         finally:
             self._stack.pop()
+            self._path_base.pop()
 
     def _fold_returns(self, rets):
         if not rets:
@@ -363,6 +366,15 @@ class Evaluator(object):
             return a if cond.b else b
         if same(a, b):
             return a
+        # ite(x is not None, x, None) == x   and   ite(x is None, None, x) == x
+        ca = _single_atom(cond) if isinstance(cond, Rat) else None
+        if ca is not None and ca.kind == 'fn' and ca.name in ('eq', 'ne') and len(ca.args) == 2 and 'None' in ca.args:
+            other = ca.args[0] if ca.args[1] == 'None' else ca.args[1]
+            val, non = (a, b) if ca.name == 'ne' else (b, a)
+            if isinstance(non, NoneV) and isinstance(other, Rat) and isinstance(val, (Rat, CallV)):
+                vr = val.rat if isinstance(val, CallV) else val
+                if vr.equals(other):
+                    return val
         if isinstance(a, CallV) and isinstance(b, Rat):
             a = a.rat
         if isinstance(b, CallV) and isinstance(a, Rat):
@@ -722,7 +734,8 @@ class Evaluator(object):
     def store_field(self, o, attr, v):
         """attribute store; inside symbolic if-branches the old value survives where the branch is not taken"""
         old = o.fields.get(attr)
-        conds = [c for c in self._path if not isinstance(c, Bool)]
+        base = self._path_base[-1] if self._path_base else 0
+        conds = [c for c in self._path[base:] if not isinstance(c, Bool)]
         if old is not None and conds and old is not v:
             c = conds[0]
             for x in conds[1:]:
